@@ -736,10 +736,24 @@ fn exec_engine(case: &ConcCase, out: &mut ConcOutcome, log: &mut Vec<u8>) -> Res
     }
     // acknowledged ops must be explained; ops that were running when the disk froze (or never
     // returned) are optional; results of ops that overlapped the crash are not trusted.
-    let optional: Vec<bool> = out.history.iter().map(|r| r.in_crash || r.ret.is_none()).collect();
-    let checks: Vec<bool> = out.history.iter().map(|r| !(r.in_crash || r.ret.is_none())).collect();
-    // reads are not part of the durable state; keep them (they constrain the order) but they are cheap
-    let lr = linearize(&init, &out.history, &optional, Some(&rec_obs), &checks);
+    // Reads are left out of the recovery check: a reader may legitimately have observed the
+    // in-memory effect of an operation that was still in flight (e.g. a drop that had not yet
+    // been made durable) and that the crash then discarded. The properties promise durability
+    // of *acknowledged* operations, not of everything some reader once saw.
+    // The same holds for the *reports* of acknowledged writes (a delete may have reported "0
+    // deleted" on a graph whose creation was still in flight and is now gone): after a crash only
+    // effects are checked - every acknowledged, successful write must be part of the recovered
+    // state; writes that reported an error have no effect and are left out.
+    let writes: Vec<OpRec> = out
+        .history
+        .iter()
+        .filter(|r| !is_read(&r.op))
+        .filter(|r| r.in_crash || r.ret.is_none() || !matches!(r.result, Some(Res::Err(_))))
+        .cloned()
+        .collect();
+    let optional: Vec<bool> = writes.iter().map(|r| r.in_crash || r.ret.is_none()).collect();
+    let checks: Vec<bool> = vec![false; writes.len()];
+    let lr = linearize(&init, &writes, &optional, Some(&rec_obs), &checks);
     out.linearizations_tried += lr.tried;
     out.final_obs = Some(rec_obs);
     if !lr.ok {
